@@ -41,6 +41,7 @@ type ModelCase struct {
 	FailAfter int      `json:"fail_after"`
 	QueryErr  bool     `json:"query_err"`
 	BootFail  bool     `json:"boot_fail"`       // cold version cache and one of dbVersion's two statements fails
+	Outside   bool     `json:"outside,omitempty"` // some row lies outside the window of the statement
 	Spans     []string `json:"spans,omitempty"` // tempo_trace: ok | decode_err | panic | unknown
 }
 
@@ -135,7 +136,8 @@ func pickStep(r *rand.Rand) Param {
 
 func pickRange(r *rand.Rand) (Param, Param) {
 	startS := baseSec + int64(r.Intn(1000))*15
-	lenS := []int64{60, 300, 3600, 6 * 3600}[r.Intn(4)]
+	// 165000 s = 11,000 points at step 15 (the cap of FixPeriodPlanner), 99999 / 100000 s = the cap on range windows at [1s]
+	lenS := []int64{60, 300, 3600, 6 * 3600, 60, 300, 3600, 165000, 165015, 99999, 100000, 7 * 86400, 400 * 86400}[r.Intn(13)]
 	s, e := num(startS), num(startS+lenS)
 	switch r.Intn(16) {
 	case 0:
@@ -225,6 +227,16 @@ func genRows(r *rand.Rand, mc *ModelCase, fromS, toS int64) {
 		ts := (fromS+off)*1000000000 + int64(r.Intn(3))
 		mc.Rows = append(mc.Rows, MRow{Fp: fp, Ts: ts, Val: int64(r.Intn(4)), Kind: "ok"})
 	}
+	// rows OUTSIDE the window of the statement (a database that evaluates the WHERE clause does not return them; the
+	// pipelines must survive them all the same): the first row of the result earlier, the last one later
+	if n > 0 && r.Intn(8) == 0 {
+		mc.Rows[0].Ts = []int64{(fromS - 1 - int64(r.Intn(5000))) * 1000000000, 0, -5000000000, fromS*1000000000 - 1}[r.Intn(4)]
+		mc.Outside = true
+	}
+	if n > 0 && r.Intn(8) == 0 {
+		mc.Rows[n-1].Ts = []int64{(toS + 1 + int64(r.Intn(5000))) * 1000000000, 4000000000000000000, toS*1000000000 + 1}[r.Intn(3)]
+		mc.Outside = true
+	}
 	switch r.Intn(10) {
 	case 0:
 		if n > 0 {
@@ -239,9 +251,6 @@ func genRows(r *rand.Rand, mc *ModelCase, fromS, toS int64) {
 	}
 }
 
-// number of float64 the matrix post-processors allocate per series: outside (4e6, 1e9) the outcome is not a matter of
-// how much memory the machine has (the worker runs under an address-space limit of a few GiB)
-func grayZone(x float64) bool { return x > 4e5 && x < 2e9 }
 
 func lokiCase(r *rand.Rand, id int) *Case {
 	for {
@@ -296,20 +305,20 @@ func lokiCase1(r *rand.Rand, id int) *Case {
 		}
 		if stepMs > 0 && toS >= fromS {
 			pts := float64(toS-fromS)*1000/float64(stepMs) + 1
-			if grayZone(pts) {
-				return nil
-			}
 			huge = huge || pts > 4e5
 		}
 		aFrom, aTo := truncS(fromS, mc.DurS), truncS(toS, mc.DurS)+mc.DurS
-		if mc.Shape == "agg_json" && grayZone(float64(aTo-aFrom)/float64(mc.DurS)*2) {
-			return nil
-		}
 		huge = huge || float64(aTo-aFrom)/float64(mc.DurS)*2 > 4e5
 		fromS, toS = aFrom, aTo
 	}
 	genRows(r, mc, fromS, toS)
 	c := &Case{ID: id, Class: mc.Ep + "/" + mc.Shape, Method: "GET"}
+	if huge {
+		c.Class += "+wide-window" // more than 4e5 points or range windows: refused by the planner since 5180be1
+	}
+	if mc.Outside {
+		c.Class += "+rows-outside-window"
+	}
 	if mc.Ep == "loki_range" {
 		c.Path = "/loki/api/v1/query_range"
 	} else {
